@@ -228,3 +228,53 @@ def save_replay(path, prop, what, case, sched, args, native):
     os.makedirs(os.path.dirname(path), exist_ok=True)
     json.dump({'property': prop, 'what': what, 'case': case, 'cli_args': args, 'schedule': sched, 'native': native,
                'how_to_replay': 'python3-vt /verif/run_check.py --replay %s' % path}, open(path, 'w'), indent=1, default=str)
+
+
+def schedule_for_q(case, project_dir, cap):
+    """Schedule for SYSQ traces: explicit relay steps, blocking sends, channel capacities clamped to `cap` natively."""
+    order = list(case['launch0'])
+    lines = ['cap %d' % cap, 'poll 0 -']
+
+    def task(i):
+        return 2 + order.index(i)
+
+    def chans(i):
+        k = order.index(i)
+        base = 2 + 3 * k
+        return {'term': 't0.%d' % base, 'inval': 't0.%d' % (base + 1), 'inbox': 't0.%d' % (base + 2)}
+    for st in case['steps']:
+        alt = st['alt']
+        a = alt[0]
+        for i in st['launch']:
+            if i not in order:
+                order.append(i)
+        if a == 'stutter':
+            continue
+        if a in ('inbox', 'term', 'inval'):
+            i = alt[1]
+            if i not in order:
+                lines.append('# t%d not launched yet' % i)
+                continue
+            lines.append('poll %d %s 1' % (task(i), chans(i)[a]))
+        elif a == 'flush':
+            lines.append('poll %d -' % task(alt[1]))
+        elif a == 'relay':
+            lines.append('poll 0 %s 1' % OUT)
+        elif a == 'main_flush':
+            lines.append('poll 0 -')
+        elif a == 'bf_start':
+            lines.append('poll %d -' % task(alt[1]))
+        elif a == 'bf_cancel':
+            lines.append('poll %d t%d.* 1' % (task(alt[1]), task(alt[1])))
+        elif a == 'bf_exit':
+            i = alt[1]
+            okv = [v for o, v in st['oracles'].items() if 'exit_success' in o]
+            lines.append('exitscript %d echo t%d' % (0 if (not okv or okv[0]) else 1, i))
+            lines.append('poll %d -' % task(i))
+        elif a == 'signal':
+            lines += ['signal', 'poll 1 -']
+        elif a == 'main_signal':
+            lines.append('poll 0 %s 1' % SIG)
+        elif a in ('main_terminate', 'main_exit'):
+            lines.append('poll 0 -')
+    return lines, order
